@@ -58,3 +58,17 @@ Theorem C08_rebase_in_place :
   option_map cid (sm_get (sm_map_children (flip_child P) m) j) = option_map cid (sm_get m j).
 Proof. exact rebase_addr. Qed.
 Print Assumptions C08_rebase_in_place.
+
+(** whole histories: a child that is held after [ops1 ++ ops2] and was not taken (placed by the
+    constructor, accepted by a push, pulled from upstream) during [ops2] was, after [ops1], at the
+    same (waker block, slot) address — in every collection and combinator, whatever pushes,
+    polls, group creations / discards / rotations, re-basings and upstream pulls [ops2] contains *)
+From FB Require Import Step StepProofs Reach LedgerProofs AddrHistory UnboundedProofs.
+Theorem C08_child_never_moves :
+  forall (P : params), params_ok P ->
+  forall (ops1 ops2 : list op) (b i : nat) (id : N),
+  at_addr (coll_groups (st_coll (reach P (ops1 ++ ops2)))) b i id ->
+  ~ In id (taken_in P (reach P ops1) ops2 ++ pulled_in P (reach P ops1) ops2) ->
+  at_addr (coll_groups (st_coll (reach P ops1))) b i id.
+Proof. exact child_never_moves. Qed.
+Print Assumptions C08_child_never_moves.
